@@ -8,13 +8,22 @@ open Wire Chain Producer
 def DataIdle (a : ANode) : Prop :=
   ∀ h, a.n.dataWm < h → h ≤ a.n.store.height → ∃ b, a.n.store.getBlock h = some b ∧ b.data.txs = []
 
-/-- **when all blocks above the data watermark are empty, a data iteration is skipped and changes nothing**
-(`createSignedDataToSubmit` drops empty data; the watermark only moves when a blob was accepted) -/
-theorem dataIter_idle {a : ANode} (h : DataIdle a) (script : List DAAns) :
-    (dataIter a script).1 = a ∧ (dataIter a script).2.1 = [] ∧ (dataIter a script).2.2.1 = [] := by
-  rcases dataIter_cases a script with ⟨he, _⟩ | ⟨he, _⟩ | ⟨bs, hlt, hbs, hne, _⟩
-  · rw [he]; exact ⟨rfl, rfl, rfl⟩
-  · rw [he]; exact ⟨rfl, rfl, rfl⟩
+/-- **when all blocks above the data watermark are empty, a data iteration submits nothing and moves the watermark to the
+height the last block carries in its data metadata** (before /repo 5533199 it changed nothing, and the empty blocks
+stayed in the pending count for ever) -/
+theorem dataIter_idle {a : ANode} (h : DataIdle a) (hlt : a.n.dataWm < a.n.store.height) (script : List DAAns) :
+    ∃ b, a.n.store.getBlock a.n.store.height = some b ∧
+      dataIter a script = ((raiseWm a true (dataHeight b)).1, (raiseWm a true (dataHeight b)).2, [], .skipped) := by
+  rcases dataIter_cases a script with ⟨_, he⟩ | ⟨_, he⟩ | ⟨bs, _, hbs, _, he⟩ | ⟨bs, _, hbs, hne, _⟩
+  · omega
+  · exfalso
+    rcases he with he | he
+    · omega
+    · obtain ⟨bs, hbs⟩ := pendingBlocks_exists (s := a.n.store) (w := a.n.dataWm)
+        (fun k k1 k2 => by obtain ⟨b, hb, _⟩ := h k k1 k2; exact ⟨b, hb⟩)
+      rw [hbs] at he; simp at he
+  · obtain ⟨b, _, hb, hd⟩ := pendingBlocks_last hbs hlt
+    exact ⟨b, hb, by rw [he, advOf, hd]⟩
   · exfalso
     apply hne
     obtain ⟨hl, hget⟩ := pendingBlocks_some hbs
@@ -28,6 +37,10 @@ theorem dataIter_idle {a : ANode} (h : DataIdle a) (script : List DAAns) :
       have : bs[i] = b' := by simpa using hb'
       simp [this, he]
     rw [this]; rfl
+
+theorem dataIter_skip {a : ANode} (h : a.n.store.height = a.n.dataWm) (script : List DAAns) :
+    dataIter a script = (a, [], [], .skipped) := by
+  unfold dataIter; rw [if_pos h]
 
 theorem headersIter_idle {a : ANode} (h : a.n.store.height = a.n.hdrWm) (script : List DAAns) :
     headersIter a script = (a, [], [], .skipped) := by
@@ -63,7 +76,7 @@ def runOps (a : ANode) (ops : List Op) : ANode := ops.foldl stepOp a
 /-- nothing is pending for submission and the next height is not marked -/
 structure Idle (a : ANode) : Prop where
   hdr : a.n.store.height = a.n.hdrWm
-  data : DataIdle a
+  data : a.n.store.height = a.n.dataWm
   incl : incNext a = none
 
 /-- **an idle node stays as it is for ever**: for every sequence of header iterations, data iterations and inclusion
@@ -75,7 +88,7 @@ theorem idle_forever {a : ANode} (h : Idle a) (ops : List Op) : runOps a ops = a
     have : stepOp a op = a := by
       cases op with
       | subH s => show (headersIter a s).1 = a; rw [headersIter_idle h.hdr]
-      | subD s => exact (dataIter_idle h.data s).1
+      | subD s => show (dataIter a s).1 = a; rw [dataIter_skip h.data]
       | incl => show (includerIter a).1 = a; rw [includerIter_idle h.incl]
     show runOps (stepOp a op) ops = a
     rw [this]; exact ih
